@@ -731,7 +731,7 @@ pub fn check() -> Check {
     )
     .assume("the curve primitives of radix-common are the reference for single-signature validity (C48 checks them)")
     .assume("sweeps cover notarized transactions only: a signed partial transaction has no notary, and flipping a secp256k1 recovery id there yields a valid signature of an unrelated key by construction of ECDSA recovery")
-    .part(Part::new("signatures", 40_000, 1_600_000, 1500, signatures))
-    .part(Part::new("sweep", 1_000, 40_000, 1500, sweep))
+    .part(Part::new("signatures", 120_000, 5_000_000, 1500, signatures))
+    .part(Part::new("sweep", 3_000, 100_000, 1500, sweep))
     .min_nontrivial_pct(20.0)
 }
